@@ -1214,9 +1214,21 @@ class AstEval:
             if arg.name in self.sym_table and isinstance(self.sym_table[arg.name], EvalLocalVar):
                 local_var = self.sym_table[arg.name]
             code = compile(ast.Module(body=[arg], type_ignores=[]), filename=self.filename, mode="exec")
-            exec(code, self.global_sym_table, self.sym_table)  # pylint: disable=exec-used
+            if self.sym_table is self.global_sym_table:
+                native_locals = self.sym_table
+            else:
+                # default expressions are evaluated natively: they see the variables' values, not our cells
+                native_locals = {}
+                for name, value in self.sym_table.items():
+                    if isinstance(value, EvalLocalVar):
+                        if value.is_defined():
+                            native_locals[name] = value.get()
+                    else:
+                        native_locals[name] = value
+            exec(code, self.global_sym_table, native_locals)  # pylint: disable=exec-used
 
-            func = self.sym_table[arg.name]
+            func = native_locals[arg.name]
+            self.sym_table[arg.name] = func
             if dec_name == "pyscript_executor":
                 if not asyncio.iscoroutinefunction(func):
 
